@@ -8,7 +8,7 @@ CMD = "cd /verif && PYTHONHASHSEED=0 OPEN_PECTUS_VERIF=1 /venv/bin/python -m mc 
 
 # Every check module carries its own META = dict(technique=, text=, note=[, design_ref=]); LEVEL is the evidence level.
 CHECKS: dict[str, tuple[str, str, str, str, str]] = {}
-PENDING = {"C08", "C09", "C10", "C11"}     # being built; not registered yet
+PENDING = set()     # being built; not registered yet
 
 
 def _scan():
